@@ -32,12 +32,15 @@ LEVEL = {
     "decided": "C05 (necessary clauses): (R05.1) no item is held back in a local across a further pull of the same "
                "source (window: pairwise); (R05.2) at most one invocation of each per-item callable between consecutive "
                "pulls; (R05.3) merge pulls a source's next head only after yielding its current head; (R05.4) all/any "
-               "stop at the deciding element without another pull; (R05.5) islice ends right after its last item; "
+               "stop at the deciding element without another pull; (R05.5) islice as a table (64 slicings x 3 source lengths): "
+               "yielded indexes and number of items pulled equal itertools.islice's; "
                "(R05.6) multi-source tools pull in argument order; (R05.7) a tee child with buffered items yields them without "
-               "waiting for the lock.",
+               "waiting for the lock; (R05.8) groupby publishes an item together with its key; (R05.9) merge computes keys only "
+               "in the initial fill and while at least two sources are alive; (R05.10) zip_longest as a table (124 cells): rows and "
+               "items taken per source equal itertools.zip_longest's, also when one iterator object is passed several times.",
     "not_decided": "identity of the complete interleaved event trace (pulls, end-of-source detections, callable "
                    "invocations, yields) with the stdlib's for every input and step count.",
-    "technique": "static analysis: pending-at-pull dataflow, path counting, short-circuit table by abstract evaluation",
+    "technique": "static analysis: pending-at-pull dataflow, path counting, short-circuit / islice / zip_longest tables by abstract evaluation",
 }
 
 TOOLS = c01.PASS_THROUGH + c01.TRANSFORMING
